@@ -19,7 +19,7 @@ INFO = dict(
               'Every ordering of reply / fault / timer / open-completion is therefore a solver decision. Oracle per call, on the AsyncResult the '
               'caller holds (a counting subclass injected for scales.dispatch.AsyncResult): exactly one completion at the horizon; completion '
               'time <= ceil_10ms(t+T); TimeoutError => completion time >= t+T; later replies/faults/timers change nothing.',
-  bounds={'quick': 'per stack: 1 endpoint / 1 call (reply vs timer; close vs timer), 2 calls issued together on one endpoint (servers reply after symbolic delays; thorough: symbolic issue gaps, reply or stay silent), 1 call issued before open completes (symbolic open latency), refused endpoint',
+  bounds={'quick': 'per stack: 1 endpoint / 1 call (reply vs timer; peer close vs timer; injected I/O error at a symbolic operation index, then a second call), 2 calls issued together on one endpoint (servers reply after symbolic delays; thorough: symbolic issue gaps, reply or stay silent), 1 call issued before open completes (symbolic open latency), refused endpoint',
           'thorough': 'adds 2 endpoints / 3 calls and a member leaving with a call in flight'},
   outside=['more calls/endpoints than the bound', 'byte-level content of frames (concrete here; C13/C14)', 'IEEE rounding of the 10 ms grid (exact reals, A2)',
            'histories longer than one fault per connection'],
@@ -30,7 +30,7 @@ INFO = dict(
          'scales.dispatch.AsyncResult -> counting subclass'],
   assumptions=['A1 zero-time code', 'A2 exact reals', 'A3 tie order', 'A4 socket/peer contracts', 'A5 accelerated Thrift codec == pure-Python codec'],
 )
-EXPECT_COVERS = ['T:reply-wins', 'T:timeout-wins', 'M:reply-wins', 'M:timeout-wins', 'T:peer-close', 'M:peer-close',
+EXPECT_COVERS = ['T:io-error', 'M:io-error', 'T:reply-wins', 'T:timeout-wins', 'M:reply-wins', 'M:timeout-wins', 'T:peer-close', 'M:peer-close',
                  'T:issued-before-open', 'M:issued-before-open', 'T:refused', 'M:refused']
 
 
@@ -39,6 +39,7 @@ def jobs(tier):
   for k in ('T', 'M'):
     js.append(dict(name='%s-reply-vs-timer' % k, stack=k, sc='reply', cost=50))
     js.append(dict(name='%s-close-vs-timer' % k, stack=k, sc='close', cost=50))
+    js.append(dict(name='%s-io-error-vs-timer' % k, stack=k, sc='iofault', cost=100))
     if tier == 'quick':
       js.append(dict(name='%s-two-calls' % k, stack=k, sc='two', fixed_kinds=True, cost=3000, shards=8, shard_depth=3))
     else:
@@ -94,6 +95,28 @@ def make_body(job):
         check('call.kind', out in ('value', 'timeout'))
       else:
         if out == 'error': cover(k + ':peer-close')
+      check('no-greenlet-error', not vtime.ERRORS)
+      c.DispatcherClose()
+    elif sc == 'iofault':
+      # an I/O error (exception from send/recv) strikes at a symbolic operation index of the connection
+      T = fresh_real('T', 0, 8, lo_strict=True)
+      d = fresh_real('server_delay', 0, 10)
+      script = netm.Script(plan=lambda i, p: ('reply', d))
+      e.net.endpoint('a', 1, peer=lambda s: peer_cls(k)(s, script), connect_delay=0.1)
+      c = client(k, 'tcp://a:1', T)
+      conn = e.net.conns[0]
+      conn.fault_at = conn.io_count + 1 + choose('fault_at_io_op', 4)
+      t0 = vtime.now()
+      ar = c.hi_async('x')
+      gevent.sleep(30)
+      out = judge('call', ar, t0, T)
+      if any(kd == 'fault' for (kd, tt, cc, bb) in e.net.log): cover(k + ':io-error')
+      if out == 'value': check('call.value', stacks.events(ar)[0][2] == 'echo:x')
+      # a second call after the fault is still answered or failed exactly once, within its deadline
+      t1 = vtime.now()
+      ar2 = c.hi_async('y')
+      gevent.sleep(30)
+      judge('call2', ar2, t1, T)
       check('no-greenlet-error', not vtime.ERRORS)
       c.DispatcherClose()
     elif sc in ('two', 'three'):
